@@ -11,6 +11,7 @@ RULE = ("histories of 5-40 events over {backward with a fresh random gradient fi
         "every step parameter data is compared with a float64 reference implementation of the PyTorch algorithms; storage identity, dtype and "
         "shape are checked; bystanders and frozen parameters must stay byte-identical. distinct key = (optimizer, hyper-parameter class, event "
         "kind sequence); non-trivial = >= 2 steps and (momentum/moments active or weight decay or a step without zero_grad or a freeze)")
+RULE += (' Added after the seeded rounds: a parameter frozen while the optimizer is constructed, `opt.lr` reassigned, a second optimizer instance over the same parameters, parameters stored as views, and the check that a trainable parameter holding a non-zero gradient moves.')
 ASSUMPTIONS = ["reference = torch.optim algorithms as documented: Adam/AdamW negate the gradient first when maximize; coupled decay for SGD/Adam, decoupled for AdamW; "
                "momentum buffer initialised with the first gradient; bias corrections 1-beta^t",
                "SGD with maximize=True and weight_decay != 0: the SGD documentation's pseudo-code (theta + lr*(g + wd*theta)) and torch's implementation "
